@@ -66,6 +66,7 @@ def check(facts, rep, tier, cfg):
     rep.rule("C13.S7", "no new process-wide mutable state (static cell / lock / once-cell) in the files this property is anchored in")
     import whomay
     whomay.check_new_statics(facts, rep, "C13.S7", "C13")
+    whomay.check_new_trait_methods(facts, rep, "C13.S7", "C13")
 
 
 def check_r2(facts, rep, bodies):
